@@ -235,7 +235,7 @@ def explore_one(pid, pair, prog, do_twins, rnd):
         run = lambda p: pair.impl.ask(json.dumps(p, separators=(",", ":")))   # noqa: E731
         tb = []
         if pid in ("C06", "C14"):
-            tb, tp = props.twin_c06(prog, run)
+            tb, tp = props.twin_c06(prog, run, with_invoke=(pid == "C14"))
         elif pid == "C16":
             tb, tp = props.twin_c16(prog, run, rnd)
         elif pid == "C17":
